@@ -271,7 +271,12 @@ pub fn run(report: &Report, thorough: bool) -> Evidence {
         let cont_runs = AtomicU64::new(0);
         let mut n_cfg = 0;
         // {English, suggestions} x ANSI off, then ANSI on and smart quotes off (each with suggestions on and off)
+        // (the four ANSI / smart-quote variants one level less deep; the letter-case alphabet under three configurations)
         for bits in [0u32, 1, 2, 3, 4, 6, 8, 11] {
+            if plan_keys == "tTu" && ![0u32, 1, 4].contains(&bits) {
+                continue;
+            }
+            let depth = if bits >= 4 && !thorough { depth - 1 } else { depth };
             n_cfg += 1;
             let mut o = Opts::phonetic(&tiny, "");
             o.english = bits & 1 != 0;
